@@ -1,9 +1,14 @@
 //! C09 — grpc-timeout encoding/parsing and shortest-deadline enforcement.
+//! Case kinds: enc, encs, parse, run, e2e, cli, srv, seq, runl, clil, e2el, mw, chan, chano, conn, conno
+//! (described above each section below), and the audit's kinds cx, sx, runw, cliw (c09_audit.rs).
 use crate::common::*;
 use http::{HeaderMap, HeaderValue};
 use std::time::Duration;
 use tonic::transport::verif_hooks::{parse_grpc_timeout, GrpcTimeoutHook};
 use tower::{Service, ServiceExt};
+
+#[path = "c09_audit.rs"]
+mod audit;
 
 const NS: u128 = 1;
 const UNITS: [(u8, u128); 6] = [
@@ -138,6 +143,7 @@ pub fn generate(tier: &str, rng: &mut Rng) -> Vec<String> {
     out.extend(gen_more(tier, rng));
     out.extend(gen_late(tier, rng));
     out.extend(gen_multi(tier, rng));
+    out.extend(audit::generate(tier, rng));
     out
 }
 
@@ -147,6 +153,9 @@ fn dur(ns: u128) -> Duration {
 
 pub fn execute(case: &str) -> String {
     let t: Vec<&str> = case.split(' ').collect();
+    if let Some(r) = audit::execute(&t) {
+        return r;
+    }
     match t.as_slice() {
         ["enc", d] => {
             let d: u128 = d.parse().unwrap();
